@@ -113,6 +113,9 @@ def expand_x(xs, n, m):
     keep = rng.random((n, m)) < xs['density']
     if xs['family'] == 'fraction':
         base = base + fr * frac_mask
+    if xs['family'] == 'near_int':
+        # float round-off sized fractions (2.0000002): small integers plus ~3e-7
+        base = np.minimum(base, 3.0) + 3.0e-7 * frac_mask
     if xs.get('neg'):
         base = base * sign
     base = base * keep
@@ -282,6 +285,8 @@ def x_specs(draw, want=None):
     else:
         dtype = draw(st.sampled_from(['float32', 'float64', 'float64']))
         fam = 'fraction' if kind == 'fraction' or (kind == 'boundary' and draw(st.booleans())) else 'int_valued'
+        if kind == 'fraction' and draw(st.integers(0, 5)) == 0:
+            fam = 'near_int'
     spikes = []
     if kind == 'boundary' or draw(st.integers(0, 4)) == 0:
         k = draw(st.integers(1, 3))
